@@ -102,6 +102,28 @@ def run(pid, tier, seed, gate, replay=None):
         violations.append(dict(replay=rp, nofail=True,
                                what=f"correspondence broken at action {k}: impl `{results[i][0][k] if k < len(results[i][0]) else '<end>'}` "
                                     f"model `{results[i][1][k] if k < len(results[i][1]) else '<end>'}`"))
+    # the same on a multi-threaded runtime: an explicit insert racing with a fetch of the key from another thread (F16)
+    race = None
+    if pid == "C11" and not replay and not failing:
+        from . import conccheck as CC
+        C.build_harness(["conc"])
+        rrng = random.Random(seed + 11)
+        rs = []
+        for _ in range(60 if tier == "thorough" else 12):
+            lines = [f"cfg algo={rrng.choice(CC.ALGOS)} shards={rrng.choice([1, 2])} cap=4 rounds={80 if tier == 'thorough' else 40} "
+                     f"jitter={rrng.randrange(1, 10**6)} reent=0 timeout=60"]
+            for t in range(rrng.choice([2, 3])):
+                for _ in range(rrng.randrange(3, 8)):
+                    lines.append(f"t{t} {rrng.choice(['gof', 'gof', 'ins', 'ins', 'get'])} {rrng.choice([0, 0, 1])}")
+            rs.append("\n".join(lines) + "\n")
+        rres = C.pmap(lambda sc: CC.one("C02", sc), rs, workers=4)
+        rbad = [(sc, r) for sc, r in zip(rs, rres) if r[0]]
+        race = dict(concurrent_runs=len(rs), operations=sum(r[2] for r in rres), violations=len(rbad))
+        if rbad:
+            sc, r = min(rbad, key=lambda t: len(t[0]))
+            rp = C.write_replay(pid, seed, "race", dict(property=pid, stream="conc (insert racing with a fetch)", script=sc,
+                                                       impl_obs=r[3][:400], oracle=dict(failed_at=0, what=r[0]), broken=None))
+            violations.append(dict(replay=rp, what=r[0]))
     if gate.get("failed") and not failing:
         rp = C.write_replay(pid, seed, "gate", dict(property=pid, oracle=None, broken=f"Coq gate for Props/{pid}.v: {gate['failed']}",
                                                    note=f"oracle search over {len(scripts)} scripts found no failing input"))
@@ -113,5 +135,5 @@ def run(pid, tier, seed, gate, replay=None):
                     "a failed fetch, a disk-stage hit or a lookup-only miss; distinct = SHA-1 of the script",
         samples=[dict(script=scripts[k].strip().split("\n"), impl=results[k][0][:6])] if results else [],
         traces_validated_against_impl=len(scripts) - len(mism) - len(failing),
-        input_distribution=dict(situations=flagcount), exhaustive=False)
+        input_distribution=dict(situations=flagcount, multi_threaded_race_stream=race), exhaustive=False)
     return cov, violations, ASSUME
